@@ -123,6 +123,14 @@ def handlers : List (String × Handler) := [
     let ps ← (← getArr j "groups").toList.mapM parseParams
     let f ← parseFilters (← j.getObjVal? "filters")
     pure (exceptToJson natsToJson (query k (ps.map mkGroup) f))),
+  ("spec", fun j => do
+    let k ← parseKind (← getStr j "method")
+    let ps ← (← getArr j "groups").toList.mapM parseParams
+    let f ← parseFilters (← j.getObjVal? "filters")
+    let idx := (List.range ps.length).filter (fun i => match ps[i]? with
+      | some p => specKind k p && specFilters k p f
+      | none => false)
+    pure (okJson (Json.mkObj [("spec", natsToJson idx), ("consistent", Json.bool (ps.all Params.consistent))]))),
   ("args", fun j => do
     let k ← parseKind (← getStr j "method")
     let gt ← match j.getObjVal? "gt" with
